@@ -11,6 +11,7 @@ mod c14;
 mod c16;
 mod c17;
 mod c18;
+mod c19;
 
 use serde_json::{json, Value};
 use std::io::{BufRead, Write};
@@ -30,6 +31,7 @@ fn dispatch(case: &Value) -> Value {
         "c16" => c16::run(k, case),
         "c17" => c17::run(k, case),
         "c18" => c18::run(k, case),
+        "c19" => c19::run(k, case),
         _ => json!({"unknown": k}),
     }
 }
